@@ -27,6 +27,9 @@ func (sr *scenRun) evaluate(eps []*endpoint, reliable bool) {
 	tag := sc.Kind + "/" + sc.Transport
 	if sc.Tamper {
 		tag = "tamper-" + tag
+		if sc.Cold {
+			tag = "tamper-from-first-packet-" + sc.Kind + "/" + sc.Transport
+		}
 	}
 	if sc.Plain {
 		tag = "control-plain-" + tag
@@ -114,7 +117,7 @@ func (sr *scenRun) evaluate(eps []*endpoint, reliable bool) {
 		run.Count("deliveries:"+tag, int64(st.Deliveries))
 		run.Count("must-deliver-checked", int64(st.MustDeliver))
 		run.Count("endpoints-checked", 1)
-		if st.Deliveries == 0 {
+		if st.Deliveries == 0 && !sc.Tamper {
 			sr.fail("interop/"+sc.Transport+"/"+sc.Kind+"/nothing-delivered", fmt.Sprintf("endpoint %s received no packet at all", e.name), nil)
 		}
 		for _, f := range fs {
@@ -272,7 +275,7 @@ func (sr *scenRun) tamperOracle(e *endpoint, tRTP map[tkey]string, tAPP map[uint
 		allow = untampered / 50 // UDP: 2 % loss allowance
 	}
 	if lost > allow {
-		sr.fail("tamper/"+sc.Transport+"/untampered-neighbour-lost",
+		sr.fail("tamper/"+sc.Transport+"/"+sr.coldTag()+"untampered-neighbour-lost",
 			fmt.Sprintf("endpoint %s: %d of %d untampered packets between the first and last delivered one are missing (%d of them directly after a tampered packet)", e.name, lost, untampered, afterTamperLost), nil)
 	}
 	// every altered packet must have raised a decode error
